@@ -5,6 +5,7 @@ H = ["connectconformance/c05_test.go", "connectconformance/peersim_test.go", "co
 CHECK = {
     "level": "model_checking",
     "assumptions": [
+        "c05-osproc is exhaustive over its program x driver list, not over OS schedules (goroutines blocked on real pipes are invisible to the bubble); its only wall-clock oracle is a 180 s watchdog",
         "sequential consistency; preemption only at gates (mutex acquisition, atomic access, fake peer events)",
         "scripted in-process peers substituted through the verif hook stand for the client/server processes",
         "the library's expansion (C07) is taken as given; selection, gRPC-peer applicability, marking and glob filtering are recomputed independently",
@@ -14,7 +15,7 @@ CHECK = {
     "manifest": {
         "engine": "PEERSIM (GATE)",
         "technique": "stateless model checking of the real run() goroutines against scripted peers (controlled scheduler in a synctest bubble, preemption-bounded DFS with state caching)",
-        "text": "The real run() is executed against fake client and server processes for every scenario of a small configuration alphabet (2-5 config cases giving 2-4 server instances, 1-5 suites incl. mode-specific, gRPC-only and client-certificate suites, three modes with the gRPC reference peers, 6 run/skip filters, max-servers 1-3, a server that fails to start) and every order of peer events / lock-level interleaving up to the preemption bound. Invariants on the peers' logs: each selected permutation reaches the right kind of client exactly once (or is a recorded setup failure), while a live server of the right kind serving exactly its protocol/HTTP version/TLS mode is up, with that server's host, port and certificate and the test-name header; gRPC-peer permutations only where applicable and under marked names; live servers <= max-servers; all servers stopped; run returns.",
+        "text": "The real run() is executed against fake client and server processes for every scenario of a small configuration alphabet (2-5 config cases giving 2-4 server instances, 1-5 suites incl. mode-specific, gRPC-only and client-certificate suites, three modes with the gRPC reference peers, 6 run/skip filters, max-servers 1-3, a server that fails to start) and every order of peer events / lock-level interleaving up to the preemption bound. Invariants on the peers' logs: each selected permutation reaches the right kind of client exactly once (or is a recorded setup failure), while a live server of the right kind serving exactly its protocol/HTTP version/TLS mode is up, with that server's host, port and certificate and the test-name header; gRPC-peer permutations only where applicable and under marked names; live servers <= max-servers; all servers stopped; run returns. Added after the seeding rounds: client faults with two server slots; io.Pipe-semantics client stdin; servers that report localhost / ::1 / no host and echo the offered certificate; runs without -v (instances in map order); batches in reversed / rotated case order (hook); unit c05-osproc: one side a real OS process (the test binary re-executed with a peer program) through the real runCommand, incl. peers that exit 0 at once, ignore SIGTERM, or are handed over only after they are gone - oracle adds: no process started by run() exists 5 s after it returned; unit c05-inproc: scripted server functions through the real runInProcess incl. 64 KiB+ stderr lines.",
         "note": "TLS instances only at the default schedule (certificate generation). Fake peers, virtual time.",
         "design_ref": "DESIGN.md §2.3, §4 C05",
     },
